@@ -9,6 +9,8 @@ import Distill.Props.RenderProps
 import Distill.Proofs.Convert
 import Distill.Model.Render
 import Distill.Gen.Funcs
+import Distill.Gen.Tables
+import Distill.Proofs.Style
 namespace Distill.C04
 open Distill
 
@@ -59,5 +61,87 @@ theorem output_nodes_visible (A : CAtoms) (n : Node) :
 
 /-- the statement list of `GetOutputNodes` as it stands (script/style and visibility filter) -/
 theorem get_output_nodes_tie : Gen.getOutputNodesBody = Gen.getOutputNodesBodyExpected := by rfl
+
+
+/-! ### what the visibility test reads from an inline style
+
+`styleDisplay` and `visHidden` above are atoms.  `Model/Style.lean` opens them: both regular
+expressions with Go's matching spelled out, every match of `rxDisplay`, and the cascade of
+`GetDisplayStyle` (the check runs it against the real functions on declaration lists and token soup). -/
+
+/-- the two expressions the model spells out are the ones in the source -/
+theorem style_regexps_tie :
+    Gen.modelledRegexps.lookup "internal/domutil.rxDisplay" =
+      some "(?i)display\\s*:\\s*([\\w-]+)\\s*(!\\s*important\\s*)?(?:;|$)" ∧
+    Gen.modelledRegexps.lookup "internal/domutil.rxVisibilityHidden" =
+      some "(?i)visibility\\s*:\\s*(:?hidden|collapse)" := by
+  constructor <;> decide +kernel
+
+/-- `GetDisplayStyle` (all matches, the cascade) and `IsProbablyVisible` as they stand -/
+theorem style_bodies_tie : Gen.styleBodies = Gen.styleBodiesExpected := by rfl
+
+/-- **Every spelling of every declaration is read**: in a style attribute made of `display`
+declarations — any case, any white space around the colon, before `!important`, inside it and before
+the semicolon — every declaration is found with its value and its importance, in order; for any
+number of declarations. -/
+theorem display_declarations_read (ds : List Style.Decl) (h : ∀ d ∈ ds, d.WF) :
+    Style.displayAll ((Style.render ds).length + 1) (Style.render ds) = ds.map Style.Decl.toMatch :=
+  Style.displayAll_render ds h _ (Nat.lt_succ_self _)
+
+/-- **The last declaration decides** when none before it is important … -/
+theorem last_display_decides (pre : List Style.Decl) (d : Style.Decl) (h : ∀ x ∈ pre ++ [d], x.WF)
+    (hpre : ∀ x ∈ pre, x.imp = none) :
+    Style.display (Style.render (pre ++ [d])) = some (d.value.map Style.lower) := by
+  unfold Style.display
+  rw [display_declarations_read _ h, List.map_append, List.map_cons, List.map_nil,
+    Style.cascade_unimportant_last _ (by
+      intro x hx
+      simp only [List.mem_map] at hx
+      obtain ⟨y, hy, rfl⟩ := hx
+      simp [Style.Decl.toMatch, hpre y hy]) _ none (by intro c hc; cases hc)]
+  rfl
+
+/-- … **and an important one stays** whatever unimportant declarations follow it: with
+`display:none !important` anywhere and no important declaration after it, the element is not rendered -/
+theorem important_display_stays (pre post : List Style.Decl) (d : Style.Decl)
+    (h : ∀ x ∈ pre ++ [d] ++ post, x.WF) (hd : d.imp.isSome = true) (hpost : ∀ x ∈ post, x.imp = none) :
+    Style.display (Style.render (pre ++ [d] ++ post)) = some (d.value.map Style.lower) := by
+  unfold Style.display
+  rw [display_declarations_read _ h]
+  simp only [List.map_append, List.map_cons, List.map_nil]
+  rw [Style.cascade_append, Style.cascade_append]
+  have hstep : ∀ cur : Option Style.DMatch, Style.cascade cur [d.toMatch] = some ⟨d.value, true⟩ := by
+    intro cur
+    cases cur with
+    | none => simp [Style.cascade, Style.Decl.toMatch, hd]
+    | some c => simp [Style.cascade, Style.Decl.toMatch, hd]
+  rw [hstep, Style.cascade_important_stays ⟨d.value, true⟩ rfl _ (by
+      intro x hx
+      simp only [List.mem_map] at hx
+      obtain ⟨y, hy, rfl⟩ := hx
+      simp [Style.Decl.toMatch, hpost y hy])]
+  rfl
+
+/-- **`visibility: hidden | collapse` is recognised in every spelling, wherever it stands** in the
+attribute: any case, any white space before and after the colon, anything before and after -/
+theorem visibility_hidden_any_spelling (a name w1 w2 kw b : List Char)
+    (hn : Style.FoldsTo name "visibility".toList) (h1 : Style.AllWS w1) (h2 : Style.AllWS w2)
+    (hk : (Style.FoldsTo kw "hidden".toList ∨ Style.FoldsTo kw "collapse".toList) ∧
+      ∀ c ∈ kw, Style.isWS c = false ∧ c ≠ ':') :
+    Style.visHidden (a ++ (name ++ w1 ++ ':' :: w2 ++ kw ++ b)) = true :=
+  Style.visHidden_append_left a _ (Style.visHidden_of_visAt _ (Style.visAt_spelled name w1 w2 kw b hn h1 h2 hk))
+
+/-! non-vacuity -/
+example : Style.display "color:red; DISPLAY :\tNone ! Important ;display:block".toList = some "none".toList := by
+  decide +kernel
+example : Style.display "display:block;display:none".toList = some "none".toList := by decide +kernel
+example : Style.display "margin:0".toList = none := by decide +kernel
+example : Style.visHidden "margin:0;VISIBILITY : Collapse".toList = true := by decide +kernel
+example : Style.visHidden "visibility:visible".toList = false := by decide +kernel
+example : (⟨"Display".toList, " ".toList, [], "NONE".toList, "\t".toList, some ([], "IMPORTANT".toList, " ".toList)⟩ : Style.Decl).WF := by
+  refine ⟨?_, by unfold Style.AllWS; decide, by unfold Style.AllWS; decide, by unfold Style.AllWS; decide, by decide, by decide,
+    by unfold Style.AllWS; decide, by unfold Style.AllWS; decide, ?_, by decide⟩
+  · repeat (first | exact Style.FoldsTo.nil | apply Style.FoldsTo.cons (by decide))
+  · repeat (first | exact Style.FoldsTo.nil | apply Style.FoldsTo.cons (by decide))
 
 end Distill.C04
